@@ -1,4 +1,5 @@
 import RV.C18.Lemmas
+import RV.C18.TwoWrappers
 import RV.C18.XModel
 import Mathlib.Data.List.Nodup
 /-
@@ -572,5 +573,166 @@ theorem memLen_congr {c c' : List Quad} (hc : c.Nodup) (hc' : c'.Nodup) (h : Set
     constructor
     · rintro ⟨q, hq, rfl⟩; exact ⟨q, (h q).mp hq, rfl⟩
     · rintro ⟨q, hq, rfl⟩; exact ⟨q, (h q).mpr hq, rfl⟩
+
+/-! ### the graph names the wrapped store knows (`Memory.__all_contexts`) -/
+
+structure Known (m : Mem) (log : List Entry) : Prop where
+  cur : ∀ q ∈ m.cur, q.graph ∈ m.ctxs
+  log : ∀ q, (q, Undo.add) ∈ log → q.graph ∈ m.ctxs
+
+theorem cancelOr_add_sub {log : List Entry} {q x : Quad} (h : (x, Undo.add) ∈ cancelOr log q .add .remove) :
+    (x, Undo.add) ∈ log := by
+  unfold cancelOr at h
+  split at h
+  · exact List.mem_of_mem_erase h
+  · rcases List.mem_append.mp h with h | h
+    · exact h
+    · simp at h
+
+theorem cancelOr_rem_sub {log : List Entry} {q x : Quad} (h : (x, Undo.add) ∈ cancelOr log q .remove .add) :
+    (x, Undo.add) ∈ log ∨ x = q := by
+  unfold cancelOr at h
+  split at h
+  · exact Or.inl (List.mem_of_mem_erase h)
+  · rcases List.mem_append.mp h with h | h
+    · exact Or.inl h
+    · simp at h; exact Or.inr h
+
+theorem cgQuads_sub {cur : List Quad} {p : Pat} {x : Quad} (h : x ∈ cgQuads cur p) : x ∈ cur := by
+  have e : cgQuads cur p = cgQuads cur p.anyGraph := rfl
+  rw [e] at h
+  exact ((mem_cgQuads (p := p.anyGraph) rfl x).mp h).1
+
+theorem graphTriples_sub {cur : List Quad} {p : Pat} {g : Nat} (hp : p.2.2.2 = some g) {x : Quad}
+    (h : x ∈ graphTriples cur p g) : x ∈ cur := ((mem_graphTriples hp x).mp h).1
+
+theorem removeLog_add_sub {cur : List Quad} {log l : List Entry} {p : Pat} (hl : removeLog cur log p = some l)
+    {x : Quad} (h : (x, Undo.add) ∈ l) : (x, Undo.add) ∈ log ∨ x ∈ cur := by
+  unfold removeLog at hl
+  split at hl
+  · split at hl
+    · next g hpg =>
+      split at hl
+      · cases hl
+        rcases mem_logRemovals _ _ _ h with h1 | h1
+        · exact Or.inl h1
+        · exact Or.inr (graphTriples_sub hpg h1)
+      · cases hl
+        rcases mem_logRemovals _ _ _ h with h1 | h1
+        · exact Or.inl h1
+        · exact Or.inr (cgQuads_sub h1)
+    · cases hl
+      rcases mem_logRemovals _ _ _ h with h1 | h1
+      · exact Or.inl h1
+      · exact Or.inr (cgQuads_sub h1)
+  · next q hg =>
+    split at hl
+    · cases hl
+    · next he =>
+      cases hl
+      rcases cancelOr_rem_sub h with h1 | h1
+      · exact Or.inl h1
+      · subst h1
+        have hpq := ground_pat hg
+        subst hpq
+        refine Or.inr ?_
+        by_contra hc
+        exact he ((memTriples_isEmpty_pat cur x).mpr hc)
+
+theorem known_step {s : XW} (h : Known s.m s.log) (o : XOp) : Known (s.step o).m (s.step o).log := by
+  cases o with
+  | add q =>
+    simp only [XW.step, XW.add]
+    split
+    · exact h
+    · next l hl =>
+      obtain ⟨_, rfl⟩ := addLog_some hl
+      constructor
+      · intro x hx
+        simp only [Mem.add, mem_sinsert] at hx ⊢
+        rcases hx with rfl | hx
+        · exact Or.inl rfl
+        · exact Or.inr (h.cur x hx)
+      · intro x hx
+        simp only [Mem.add, mem_sinsert]
+        exact Or.inr (h.log x (cancelOr_add_sub hx))
+  | remove p =>
+    simp only [XW.step, XW.remove]
+    split
+    · exact h
+    · next l hl =>
+      constructor
+      · intro x hx
+        simp only [Mem.remove, List.mem_filter] at hx ⊢
+        exact h.cur x hx.1
+      · intro x hx
+        simp only [Mem.remove]
+        rcases removeLog_add_sub hl hx with h1 | h1
+        · exact h.log x h1
+        · exact h.cur x h1
+  | bind a b o => exact ⟨h.cur, h.log⟩
+  | pass => exact h
+
+theorem mem_replay_sub (log : List Entry) : ∀ (cur : List Quad) (x : Quad),
+    x ∈ replay cur log → x ∈ cur ∨ (x, Undo.add) ∈ log := by
+  induction log with
+  | nil => intro cur x h; exact Or.inl h
+  | cons e es ih =>
+    intro cur x h
+    obtain ⟨q, u⟩ := e
+    cases u with
+    | add =>
+      simp only [replay] at h
+      rcases ih _ x h with h1 | h1
+      · rcases mem_sinsert.mp h1 with rfl | h2
+        · exact Or.inr (by simp)
+        · exact Or.inl h2
+      · exact Or.inr (List.mem_cons_of_mem _ h1)
+    | remove =>
+      simp only [replay] at h
+      rcases ih _ x h with h1 | h1
+      · exact Or.inl (mem_sremove.mp h1).2
+      · exact Or.inr (List.mem_cons_of_mem _ h1)
+
+theorem known_cmd {s : XW} (h : Known s.m s.log) (c : XCmd) :
+    Known (s.cmd c).m (s.cmd c).log ∧ (∀ g ∈ s.m.ctxs, g ∈ (s.cmd c).m.ctxs) := by
+  cases c with
+  | op o =>
+    refine ⟨known_step h o, ?_⟩
+    intro g hg
+    cases o with
+    | add q =>
+      simp only [XW.cmd, XW.step, XW.add]
+      split
+      · exact hg
+      · simp only [Mem.add, mem_sinsert]; exact Or.inr hg
+    | remove p =>
+      simp only [XW.cmd, XW.step, XW.remove]
+      split
+      · exact hg
+      · exact hg
+    | bind a b o => exact hg
+    | pass => exact hg
+  | commit => exact ⟨⟨h.cur, by simp [XW.cmd, XW.commit]⟩, fun g hg => hg⟩
+  | rollback =>
+    have hc : (s.cmd .rollback).m.ctxs = s.m.ctxs := by
+      simp only [XW.cmd, XW.rollback]
+      exact replayMem_ctxs s.log s.m h.log
+    refine ⟨⟨?_, by simp [XW.cmd, XW.rollback]⟩, fun g hg => by rw [hc]; exact hg⟩
+    intro x hx
+    rw [hc]
+    simp only [XW.cmd, XW.rollback, replayMem_cur] at hx
+    rcases mem_replay_sub _ _ _ hx with h1 | h1
+    · exact h.cur x h1
+    · exact h.log x h1
+
+theorem known_run (cs : List XCmd) : ∀ (s : XW) (c0 : List Nat), Known s.m s.log → (∀ g ∈ c0, g ∈ s.m.ctxs) →
+    Known (s.run cs).m (s.run cs).log ∧ (∀ g ∈ c0, g ∈ (s.run cs).m.ctxs) := by
+  induction cs with
+  | nil => intro s c0 h h0; exact ⟨h, h0⟩
+  | cons c cs ih =>
+    intro s c0 h h0
+    have h1 := known_cmd h c
+    exact ih (s.cmd c) c0 h1.1 (fun g hg => h1.2 g (h0 g hg))
 
 end RV.C18
